@@ -21,12 +21,13 @@ for d in sorted((V / "seeded").glob("*/")):
                 how.append("correspondence")
             det.append((p, " + ".join(how) or "violation"))
     note = (d / "note.txt").read_text().strip() if (d / "note.txt").exists() else ""
+    neutral = bool(re.search(r"DEMO pristine=0 patched=0", res))
     summary = meta.get("summary", "").replace("|", "/")[:230]
     needs = meta.get("needs", "")
     needs = (needs if isinstance(needs, str) else json.dumps(needs)).replace("|", "/")[:160]
     rows.append("| %s | %s | %s — *needs:* %s | %s | %s |" % (
         d.name, meta.get("property", "?"), summary, needs,
-        ", ".join(p for p, _ in det) or "**missed**", "; ".join(sorted({h for _, h in det})) + ((" — " + note) if note else "")))
+        ", ".join(p for p, _ in det) or ("no longer a violation (demo passes with the patch)" if neutral else "**missed**"), "; ".join(sorted({h for _, h in det})) + ((" — " + note) if note else "")))
 import subprocess
 kf = json.loads((V / "known_findings.json").read_text())["findings"]
 bycommit = {}
